@@ -64,7 +64,7 @@ def main() -> int:
         else:
             meta["status"] = "silent" if r["status"] == "SILENT" else "noisy"
             if meta["status"] == "noisy":
-                meta["reported"] = fired or [r["status"]]
+                meta["reported"] = fired or sorted({w.split(" @ ")[0] for w in r.get("where", [])}) or [r["status"]]
         t = out / d.name
         t.mkdir(exist_ok=True)
         shutil.copy(d / "patch.diff", t / "patch.diff")
